@@ -1,4 +1,4 @@
-package main
+package hx
 
 // Minimal s-expressions shared with the OCaml model driver (ocaml/sx.ml).
 
